@@ -234,6 +234,11 @@ impl Expression for Expr {
             Return, Unary, Variable,
         };
 
+        #[cfg(vrl_verif)]
+        if crate::compiler::verif::should_trace() {
+            return crate::compiler::verif::traced(self, ctx);
+        }
+
         match self {
             Literal(v) => v.resolve(ctx),
             Container(v) => v.resolve(ctx),
